@@ -129,7 +129,34 @@ func (r *recorder) dones() int {
 	return n
 }
 
+// run executes the scenario; when a final Done report is still missing after the quiescence cap the
+// whole scenario is executed a second time: only a Done report that is missing for the same station
+// and direction in both independent executions (each waited for 60 s after Exchange had returned)
+// is reported as a violation of "exactly one final report is delivered" - a bounded restatement of
+// the liveness clause; a single miss stays inconclusive.
 func run(c vrt.Case) vrt.Obs {
+	o, missing := attempt(c)
+	if len(missing) == 0 {
+		return o
+	}
+	o2, missing2 := attempt(c)
+	o.Evals += o2.Evals
+	o.Violations = append(o.Violations, o2.Violations...)
+	both := false
+	for k := range missing {
+		if missing2[k] {
+			both = true
+			o.Violate("status-done-missing", "%s: no report with Done set was delivered within 60 s after Exchange returned, in two independent executions of the scenario", k)
+		}
+	}
+	if both {
+		o.Inconclusive = nil
+	}
+	return o
+}
+
+func attempt(c vrt.Case) (vrt.Obs, map[string]bool) {
+	missing := map[string]bool{}
 	var p params
 	vrt.Params(c, &p)
 	var o vrt.Obs
@@ -152,7 +179,7 @@ func run(c vrt.Case) vrt.Obs {
 		m, err := mk(fmt.Sprintf("A%d", i), b2fx.CallA, b2fx.CallB, size)
 		if err != nil {
 			o.Inconclusive = append(o.Inconclusive, err.Error())
-			return o
+			return o, missing
 		}
 		sc.MsgsA = append(sc.MsgsA, m)
 	}
@@ -160,7 +187,7 @@ func run(c vrt.Case) vrt.Obs {
 	mb, err := mk("B0", b2fx.CallB, b2fx.CallA, 50+p.Size/2)
 	if err != nil {
 		o.Inconclusive = append(o.Inconclusive, err.Error())
-		return o
+		return o, missing
 	}
 	sc.MsgsB = []b2fx.MsgSpec{mb}
 
@@ -177,7 +204,7 @@ func run(c vrt.Case) vrt.Obs {
 	res, _ := b2fx.RunPair(sa, sb, pl, false)
 	if res.A.Err != nil || res.B.Err != nil || res.A.Panic != nil || res.B.Panic != nil {
 		o.Violate("exchange-failed", "paced exchange failed: A=%v B=%v panics=%v/%v", res.A.Err, res.B.Err, res.A.Panic, res.B.Panic)
-		return o
+		return o, missing
 	}
 	// quiescence: wait for the logical condition "every transfer has produced its Done report"
 	wantA := len(sc.MsgsA) + len(sc.MsgsB) // A sends MsgsA and receives MsgsB
@@ -247,6 +274,7 @@ func run(c vrt.Case) vrt.Obs {
 			case n == 1:
 				o.Count("done_reports_exactly_one", 1)
 			case n == 0 && !time.Now().Before(deadline):
+				missing[fmt.Sprintf("station %s %s %s", name, k.dir, k.mid)] = true
 				o.Inconclusive = append(o.Inconclusive, fmt.Sprintf("station %s %s %s: Done report not seen within the 60 s quiescence cap", name, k.dir, k.mid))
 			default:
 				o.Violate("status-done-count", "station %s %s %s: %d reports with Done set (expected exactly one)", name, k.dir, k.mid, n)
@@ -261,5 +289,5 @@ func run(c vrt.Case) vrt.Obs {
 		o.Sig("s%d r%d periodic=%d", p.Index, p.Rep, periodic)
 	}
 	o.Sample = map[string]any{"delay_ms": p.DelayMS, "size": p.Size, "n_msgs": p.NMsgs, "modem": p.Modem, "periodic_reports": periodic, "exchange_ms": res.Duration.Milliseconds()}
-	return o
+	return o, missing
 }
